@@ -32,7 +32,7 @@ static const double K26 = 67108864.0;
 static const target_hll_type TYPES[] = {HLL_4, HLL_6, HLL_8};
 static const char* TNAME[] = {"hll4", "hll6", "hll8"};
 
-struct Cfg { bool cpc; uint8_t lg_k; int type; uint64_t nmax; int parts; double overlap; uint64_t base; double step; uint8_t part_lg_k[3]; };
+struct Cfg { bool cpc; uint8_t lg_k; int type; uint64_t nmax; int parts; double overlap; uint64_t base; double step; uint8_t part_lg_k[3]; bool reuse = false; };
 
 static std::string cfg_str(const Cfg& c, uint64_t n) { return "lg_k=" + std::to_string(c.lg_k) + " n=" + std::to_string(n); }
 
@@ -70,6 +70,15 @@ static void run_hll(const Cfg& c, Rng& r) {
   std::vector<hll_sketch> parts;
   for (int i = 0; i < c.parts; ++i) parts.emplace_back(c.part_lg_k[i], TYPES[(c.type + i) % 3]);
   const uint64_t k = 1ULL << c.lg_k;
+  hll_union ureuse(c.lg_k);
+  if (c.reuse) {   // sketches and a persistent union object are first filled with unrelated keys (HLL mode), reset(), then used
+    const uint64_t junk = std::min<uint64_t>(k / 2 + r.below(4 * k), 40000);
+    for (uint64_t j = 0; j < junk; ++j) { const uint64_t key = bij(~c.base + j); main_sk.update(key); for (auto& p : parts) p.update(key); }
+    ureuse.update(main_sk); ureuse.update(parts[0]);
+    if (main_sk.get_current_mode() == HLL) count("sk_hll_reuse_after_hll_mode");
+    main_sk.reset(); for (auto& p : parts) p.reset(); ureuse.reset();
+    observe_hll(ureuse, 0, "hll_union", c, "union object after reset", c.lg_k);
+  }
   std::set<uint64_t> marks = {7, 8, 9, k / 8 - 1, k / 8, k / 8 + 1, 3 * k / 32, 3 * k / 32 + 1, k, 2 * k, 3 * k, c.nmax};
   double next = 48, next_union = 1 + static_cast<double>(r.below(8));
   observe_hll(main_sk, 0, fam, c, "empty sketch", c.lg_k);
@@ -88,8 +97,10 @@ static void run_hll(const Cfg& c, Rng& r) {
     if (obs) { observe_hll(main_sk, n, fam, c, "sketch", c.lg_k); count("sk_checkpoints"); }
     if (static_cast<double>(n) >= next_union || n == c.nmax) {
       next_union = std::max(next_union * 1.7, next_union + 1);
-      hll_union u(c.lg_k);
+      hll_union fresh(c.lg_k);
+      hll_union& u = c.reuse ? ureuse : fresh;    // the persistent union object was reset() after its previous use
       for (int j = 0; j < c.parts; ++j) u.update(parts[j]);
+      if (c.reuse) count("sk_hll_reuse_union_checkpoints");
       // the union object is read before or after get_result() (random); the first accessor after the merge is random
       const bool result_first = order_next() & 1;
       Chain uc;
@@ -99,6 +110,7 @@ static void run_hll(const Cfg& c, Rng& r) {
       if (result_first) uc = observe_hll(u, n, "hll_union", c, "union object after get_result", c.lg_k);
       VF_CHECK(same_chain(uc, rc), "hll_union|union-object-vs-result|estimate-or-bounds-differ", cfg_str(c, n) + " union: " + uc.to_string() + " result: " + rc.to_string());
       count("sk_union_checkpoints");
+      if (c.reuse) ureuse.reset();
     }
   }
   for (uint8_t bad : {uint8_t(0), uint8_t(4)}) {
@@ -141,7 +153,7 @@ static void run_hll_program(Rng& r, bool T) {
     const Step& st = steps[si];
     if (st.sketch) {
       hll_sketch sk(st.lg_k, TYPES[st.type]);
-      const uint64_t start = cursor - std::min<uint64_t>(cursor, st.cnt / 5);     // re-offers up to 20% of the latest keys
+      const uint64_t start = cursor - std::min<uint64_t>(cursor, r.coin() ? st.cnt / 5 : r.below(st.cnt + 1));     // re-offers 20% .. all of its size from the latest keys
       for (uint64_t i = 0; i < st.cnt; ++i) { const uint64_t key = bij(base + start + i); sk.update(key); seen.insert(le8(key)); }
       cursor = std::max(cursor, start + st.cnt);
       if (sk.get_current_mode() == HLL) min_lg = std::min(min_lg, st.lg_k);
@@ -199,6 +211,11 @@ static void observe_cpc(const cpc_sketch& s, uint64_t n, const char* fam, const 
   check_chain_lazy(icon, "cpc_icon", ctx);
   if (!s.was_merged) check_chain_lazy(hip, "cpc_hip", ctx);
   const uint64_t k = 1ULL << eff_lg_k;
+  if (s.get_lg_k() >= 8) {   // gross-error guard: true count within 8 published standard deviations (+10) of the estimate
+    const double sigma = std::max(ch.est - ch.lb[1], ch.ub[1] - ch.est);
+    VF_CHECK(std::fabs(ch.est - static_cast<double>(n)) <= 8.0 * sigma + 10.0, std::string(fam) + "|true-count-beyond-8-published-std-devs-of-estimate", ctx() + " sigma=" + str(sigma) + " " + ch.to_string());
+    count("sk_cpc_gross_error_checks");
+  }
   if (n * 32 <= 3 * k) {
     const Window w = small_range_window(n, static_cast<double>(k));
     VF_CHECK(w.lo <= ch.est && ch.est <= w.hi, std::string(fam) + "|small-range|estimate-outside-accuracy-window", ctx() + " window=[" + str(w.lo) + "," + str(w.hi) + "] " + ch.to_string());
@@ -247,10 +264,80 @@ static void run_cpc(const Cfg& c, Rng& r) {
   }
 }
 
+// ---------------------------------------------------------------- CPC union programs with mixed inputs
+static uint64_t covered(std::vector<std::pair<uint64_t, uint64_t>> iv) {   // size of the union of half-open key-index intervals
+  std::sort(iv.begin(), iv.end());
+  uint64_t tot = 0, end = 0;
+  for (auto& x : iv) { if (x.second <= end) continue; tot += x.second - std::max(x.first, end); end = x.second; }
+  return tot;
+}
+
+static void run_cpc_program(Rng& r, bool T) {
+  const uint8_t U = static_cast<uint8_t>(r.range(4, T ? 13 : 12));
+  const uint64_t base = r.next();
+  const uint64_t cap = T ? 300000 : 50000;
+  struct In { uint8_t lg_k; uint64_t start, cnt; int flavor; bool move; };
+  std::vector<In> in;
+  auto size_for = [&](uint8_t lg, int flavor) {
+    const uint64_t k = 1ULL << lg;
+    uint64_t n;
+    switch (flavor) {
+      case 0: n = 1 + r.below(std::max<uint64_t>(1, 3 * k / 32)); break;            // sparse
+      case 1: n = 3 * k / 32 + 1 + r.below(k / 2 - 3 * k / 32); break;              // hybrid
+      case 2: n = k / 2 + 1 + r.below(27 * k / 8 - k / 2); break;                   // pinned
+      default: n = 27 * k / 8 + 1 + r.below(16 * k); break;                         // sliding
+    }
+    return std::min(n, cap);
+  };
+  const bool directed = r.chance(0.25);
+  if (directed) {
+    // the same keys in a sketch of the union's lg_k (or coarser) and in a finer hybrid/pinned sketch; finer one first or last
+    In fine; fine.lg_k = static_cast<uint8_t>(U + r.range(1, 3)); fine.flavor = static_cast<int>(r.range(1, 2)); fine.cnt = size_for(fine.lg_k, fine.flavor); fine.start = 0; fine.move = r.coin();
+    In same; same.lg_k = static_cast<uint8_t>(std::max<int>(4, U - static_cast<int>(r.below(2)))); same.flavor = 4; same.cnt = fine.cnt; same.start = r.chance(0.5) ? 0 : r.below(fine.cnt / 2 + 1); same.move = r.coin();
+    if (r.coin()) { in.push_back(same); in.push_back(fine); } else { in.push_back(fine); in.push_back(same); }
+    count("sk_cpc_program_directed_same_keys_finer_windowed_input");
+  } else {
+    const int nin = static_cast<int>(r.range(2, 4));
+    uint64_t span = 0;
+    for (int i = 0; i < nin; ++i) {
+      In x; x.lg_k = static_cast<uint8_t>(std::max<int>(4, std::min<int>(16, U + static_cast<int>(r.range(-2, 3)))));
+      x.flavor = static_cast<int>(r.below(4)); x.cnt = size_for(x.lg_k, x.flavor); x.start = r.below(span + 1); x.move = r.coin();
+      span = std::max(span, x.start + x.cnt);
+      in.push_back(x);
+    }
+    const int order = static_cast<int>(r.below(3));
+    if (order == 1) std::stable_sort(in.begin(), in.end(), [](const In& a, const In& b) { return a.lg_k > b.lg_k; });
+    if (order == 2) std::stable_sort(in.begin(), in.end(), [](const In& a, const In& b) { return a.lg_k < b.lg_k; });
+    count(order == 0 ? "sk_cpc_program_order_generated" : (order == 1 ? "sk_cpc_program_order_larger_lg_k_first" : "sk_cpc_program_order_larger_lg_k_last"));
+  }
+  std::string d;
+  for (auto& x : in) d += " [lg_k=" + std::to_string(x.lg_k) + " keys=" + std::to_string(x.start) + "+" + std::to_string(x.cnt) + " flavor=" + std::to_string(x.flavor) + "]";
+  describe("cpc union program union_lg_k=" + std::to_string(U) + " directed=" + std::to_string(directed) + " inputs:" + d + " keybase=" + std::to_string(base));
+  Cfg c; c.cpc = true; c.lg_k = U; c.type = 0; c.nmax = 0; c.parts = 0; c.overlap = 0; c.base = base; c.step = 0;
+  cpc_union u(U);
+  std::vector<std::pair<uint64_t, uint64_t>> iv;
+  for (size_t i = 0; i < in.size(); ++i) {
+    const In& x = in[i];
+    cpc_sketch sk(x.lg_k);
+    for (uint64_t j = 0; j < x.cnt; ++j) sk.update(bij(base + x.start + j));
+    if (x.flavor < 4) count(std::string("sk_cpc_program_input_flavor") + std::to_string(x.flavor) + (x.lg_k > U ? "_finer" : (x.lg_k == U ? "_equal" : "_coarser")));
+    if (x.move) u.update(std::move(sk)); else u.update(sk);
+    iv.push_back({x.start, x.start + x.cnt});
+    if (i + 1 < in.size() && r.coin()) continue;
+    const uint64_t n = covered(iv);
+    const cpc_sketch res = u.get_result();
+    observe_cpc(res, n, "cpc_union_program", c, "union result", res.get_lg_k());
+    VF_CHECK(res.get_lg_k() <= U, "cpc_union_program|result-lg_k-above-union-lg_k", "result lg_k=" + std::to_string(res.get_lg_k()));
+    count("sk_cpc_program_readouts");
+  }
+  count("sk_cpc_programs");
+}
+
 void run_case(uint64_t idx, Rng& r) {
   (void)idx;
   seed_order(r);
   const bool T = G().thorough();
+  if (r.chance(0.15)) { run_cpc_program(r, T); if (want_sample()) sample("{\"config\":" + jstr(G().cur_desc) + "}"); return; }
   if (r.chance(0.2)) { run_hll_program(r, T); if (want_sample()) sample("{\"config\":" + jstr(G().cur_desc) + "}"); return; }
   Cfg c;
   c.cpc = r.coin();
@@ -270,7 +357,8 @@ void run_case(uint64_t idx, Rng& r) {
   // partial sketches: same lg_k; for CPC sometimes a larger lg_k (the union then folds them down)
   for (int i = 0; i < 3; ++i) c.part_lg_k[i] = c.lg_k;
   if (c.cpc && r.chance(0.3)) for (int i = 0; i < 3; ++i) c.part_lg_k[i] = static_cast<uint8_t>(c.lg_k + r.below(3));
-  describe(std::string(c.cpc ? "cpc" : TNAME[c.type]) + " lg_k=" + std::to_string(c.lg_k) + " n=" + std::to_string(c.nmax) + " parts=" + std::to_string(c.parts) +
+  c.reuse = !c.cpc && r.chance(0.3);
+  describe(std::string(c.cpc ? "cpc" : TNAME[c.type]) + (c.reuse ? " (reused after reset)" : "") + " lg_k=" + std::to_string(c.lg_k) + " n=" + std::to_string(c.nmax) + " parts=" + std::to_string(c.parts) +
            " part_lg_k=" + std::to_string(c.part_lg_k[0]) + "," + std::to_string(c.part_lg_k[1]) + "," + std::to_string(c.part_lg_k[2]) +
            " overlap=" + str(c.overlap) + " keybase=" + std::to_string(c.base));
   if (c.cpc) run_cpc(c, r); else run_hll(c, r);
